@@ -143,6 +143,8 @@ def build(ctx):
     # "unaffected by embedding the masks in a larger or tighter array" through the evaluator rests on the crop contracts of C10
     include_stage(ctx, "C10", only=lambda mod, sub: [sub.unit(f"bbox[{nd}]", lambda nd=nd: mod.unit_bbox(sub, nd)) for nd in (1, 2, 3)]
                   + [sub.unit("evaluate_instance", lambda: mod.unit_evaluate_instance(sub))])
+    # in the evaluator ASSD runs on the SAME per-instance masks after Dice and IoU: those must leave the masks untouched (frame obligations of C06)
+    include_stage(ctx, "C06")
     ctx.add_bounded("c07-bruteforce", "c07.bounded")
 
 
